@@ -234,3 +234,57 @@ func Excerpt(b []byte, n int) string {
 	}
 	return strconv.QuoteToASCII(string(t)) + suffix
 }
+
+// WireBody is the entity body that actually travels (nil for NoWire messages).
+func (s *Spec) WireBody() []byte {
+	if s.NoWire {
+		return nil
+	}
+	return s.Body
+}
+
+// WirePayload is the decoded body that actually travels.
+func (s *Spec) WirePayload() []byte {
+	if s.NoWire {
+		return nil
+	}
+	return s.Payload
+}
+
+// Kind names the message kind for coverage classes.
+func (s *Spec) Kind() string {
+	if !s.Resp {
+		return "req"
+	}
+	switch {
+	case s.Method == "HEAD":
+		return "head-resp"
+	case s.Status == 204:
+		return "204"
+	case s.Status == 304:
+		return "304"
+	case s.Status == 206:
+		return "206"
+	}
+	return "resp"
+}
+
+// FramingClass names framing + trailers for coverage classes.
+func (s *Spec) FramingClass() string {
+	f := s.Framing
+	if len(s.Trailers) > 0 {
+		f += "+trailers"
+		if !s.Declared {
+			f += "-undeclared"
+		}
+	}
+	return f
+}
+
+// CodingClass names the content coding for coverage classes.
+func (s *Spec) CodingClass() string {
+	if s.CodingKind == "" {
+		return "none"
+	}
+	return s.CodingKind
+}
